@@ -305,6 +305,46 @@ def walkers(ctx):
     return out
 
 
+def _explore_facts(f, interest, kill_on, at_nodes):
+    """must-hold comparison outcomes at given nodes. interest: set of canon
+    strings of comparisons; kill_on: {var: set(canon strings to drop when var
+    is written)}. Returns {node id: intersection over paths of facts}."""
+    seen = {}
+
+    def step(n, facts):
+        if n['i'] in at_nodes:
+            cur = seen.get(n['i'])
+            seen[n['i']] = set(facts) if cur is None else (cur & set(facts))
+        name = None
+        if n['k'] == 'bin' and n['op'].endswith('=') and n['op'] not in ('==', '!=', '<=', '>='):
+            l = cu.strip_casts(f, f.kid(n, 0))
+            name = l['name'] if l is not None and l['k'] == 'ref' else None
+        elif n['k'] == 'un' and n['op'] in ('++', '--', 'post++', 'post--'):
+            l = cu.strip_casts(f, f.kid(n, 0))
+            name = l['name'] if l is not None and l['k'] == 'ref' else None
+        if name in kill_on:
+            return frozenset(x for x in facts if x[1] not in kill_on[name])
+        if n['k'] == 'ret':
+            return None
+        return facts
+
+    def edge(b, term, cond, idx, succ, facts):
+        pol = paths.branch_polarity(f, term, idx)
+        if pol is None or cond is None:
+            return facts
+        c, p2 = paths.normalise_cond(f, cond, pol)
+        if c is None:
+            return facts
+        s = canon(f, c)
+        if s not in interest:
+            s = rcanon(f, c)        # through locals that merely name a sub-expression
+        if s in interest:
+            return frozenset(facts) | {('T' if p2 else 'F', s)}
+        return facts
+    paths.explore(f, set(), step, edge, max_states=50000)
+    return seen
+
+
 GUARD_FACTS = ('negative-offset', 'negative-length', 'offset-before-first-block')
 
 
@@ -318,7 +358,7 @@ def _kill_names(w):
     return k
 
 
-def _explore_facts(w, at_nodes):
+def _walker_facts(w, at_nodes):
     """must-hold named facts (Walker.sem) at given nodes: {node id: intersection over
     paths of {(fact name, bool)}}"""
     f = w.f
@@ -466,7 +506,7 @@ def r14_2(ctx):
         lc = w.loop_cond_ids()
         at = set([w.D_decl['i']]) | set(d['i'] for d in derefs) | lc
         try:
-            seen = _explore_facts(w, at)
+            seen = _walker_facts(w, at)
         except paths.Budget:
             ctx.note('R14.2 %s: state budget exceeded (not decided)' % key)
             continue
